@@ -9,8 +9,9 @@ import subprocess
 import common as C
 
 # the string alphabet of the property: plain, space, quotes, '=', leading dash, empty, '::'
-STRS = ["foo", "a b", "q\"'x", "k=v", "-d", "", "a::b"]
-CLEAN = ["foo", "a b", "q\"'x", "k=v", ""]
+# plus what argument parsers like to split at: a comma (inside a regular-expression quantifier), a semicolon
+STRS = ["foo", "a b", "q\"'x", "k=v", "-d", "", "a::b", "r[0-9]{2,4}", "x;y,z"]
+CLEAN = ["foo", "a b", "q\"'x", "k=v", "", "r[0-9]{2,4}", "x;y,z"]
 # --field-attr takes the attribute without #[..]; VALUES with '=' and quotes inside
 ATTRS = ["cfg(test)", "doc = \"the x coordinate\"", "cfg(feature = \"a=b\")", "cfg(any(feature = \"a,b\", test))"]
 TPAIRS = [["Point", "x"], ["Point", "y"]]
